@@ -1,47 +1,195 @@
-import NbioVerif.Model.Ws
-open Ws
+import NbioVerif.Model.Rfc6455
+import NbioVerif.Model.WsMask
+import NbioVerif.DrvCommon
+/-! wsdrv: runs the websocket model on the annotated ops of `hws exec` (see harness/cmd/hws/main.go) -/
+open Ws Drv
 
-def hexVal (c : Char) : Nat :=
-  if c.isDigit then c.toNat - 48 else if c.toNat ≥ 97 then c.toNat - 87 else c.toNat - 55
-def unhex (s : String) : List UInt8 :=
-  let rec go : List Char → List UInt8
-    | a :: b :: r => UInt8.ofNat (hexVal a * 16 + hexVal b) :: go r
+def part (s : String) : List UInt8 :=
+  if s == "-" || s == "" then []
+  else if s.startsWith "@" then
+    let (body, key) := match s.splitOn "^" with
+      | [a, k] => (a, some (unhex k))
+      | _ => (s, none)
+    match (body.drop 1).toString.splitOn ":" with
+    | [n, p] =>
+      let b := pattern n.toNat! p.toNat!
+      match key with
+      | some k => (b.zipIdx).map (fun (x, i) => x ^^^ k[i % 4]!)
+      | none => b
     | _ => []
-  go s.toList
-def hexDigitC (n : Nat) : Char := if n < 10 then Char.ofNat (48 + n) else Char.ofNat (87 + n)
-def hex (b : List UInt8) : String :=
-  String.ofList (b.foldr (fun x acc => hexDigitC (x.toNat / 16) :: hexDigitC (x.toNat % 16) :: acc) [])
-def fnv (b : List UInt8) : UInt64 :=
-  b.foldl (fun h x => (h ^^^ x.toUInt64) * 1099511628211) 14695981039346656037
-def short (b : List UInt8) : String := if b.length ≤ 64 then hex b else s!"#{b.length}:{fnv b}"
+  else if s.startsWith "=" then
+    match (s.drop 1).toString.splitOn ":" with
+    | [n, h] => List.replicate n.toNat! ((unhex h).headD 0)
+    | _ => []
+  else unhex s
+
+def bytesOf (s : String) : List UInt8 := (s.splitOn "+").foldr (fun p acc => part p ++ acc) []
+
+def short (b : List UInt8) : String :=
+  if b.isEmpty then "-" else if b.length ≤ 48 then hex b else s!"#{b.length}:{fnv b}"
 
 def showAct : Act → String
-  | .deliver t p => s!"deliver {t} {short p}"
-  | .write b => s!"write {short b}"
+  | .deliver t p => s!"deliver:{t}:{short p}"
+  | .write b => s!"write:{short b}"
   | .closeConn => "close"
 
+def showActs (a : List Act) : String := "[" ++ String.intercalate ";" (a.map showAct) ++ "]"
+
+def splitNE (s : String) (sep : String) : List String := (s.splitOn sep).filter (· ≠ "")
+
+/-- infl=<key>/<outspec>/<k.n.st,...>|... -/
+def inflEntries (s : String) : List (String × InflObs) :=
+  (splitNE s "|").filterMap fun ent =>
+    match ent.splitOn "/" with
+    | [key, out, steps] =>
+      let raw := (splitNE steps ",").filterMap fun t =>
+        match t.splitOn "." with
+        | [k, n, st] => some (k.toNat!, n.toNat!, st.toNat!)
+        | _ => none
+      let (_, steps) := raw.foldl (fun (acc : Nat × List RdStep) (k, n, st) =>
+        (acc.1 + n, acc.2 ++ [{ cap := acc.1 + k, n, st }])) (0, [])
+      some (key, { out := bytesOf out, steps })
+    | _ => none
+
+def inflFn (ents : List (String × InflObs)) : Bytes → InflObs := fun m =>
+  let k := toString (fnv m)
+  match ents.find? (·.1 == k) with
+  | some (_, o) => o
+  | none => ⟨[], []⟩
+
+def keyFn (keys : String) (base : Nat) : Nat → Bytes :=
+  let ks := (splitNE keys ",").map unhex
+  fun i => ks.getD (i - base) [0, 0, 0, 0]
+
+def mkEnv (ws : List String) (keyField : String) (base : Nat) : Env :=
+  let defl := (splitNE ((field ws "defl").getD "") "|").map bytesOf
+  { keyAt := keyFn ((field ws keyField).getD "") base,
+    deflate := fun _ => defl.headD [],
+    inflate := inflFn (inflEntries ((field ws "infl").getD "")) }
+
+def errStr : Option Err → String
+  | none => "0"
+  | some e => toString e.code
+
+/-! RFC twin on the E line -/
+
+def showEv : Rfc.Ev → String
+  | .deliver t p => s!"deliver:{t}:{short p}"
+  | .pong p => s!"pong:{short p}"
+  | .close p => s!"close:{short p}"
+
+def showVerdict : Rfc.Verdict → String
+  | .accept => "accept" | .closed => "closed" | .reject r => "reject:" ++ r.name
+
+def tinflFn (s : String) : Bytes → Rfc.TInfl :=
+  let ents := (splitNE s "|").filterMap fun ent =>
+    match ent.splitOn "/" with
+    | [key, st, out] => some (key, st, out)
+    | _ => none
+  fun m =>
+    let k := toString (fnv m)
+    match ents.find? (·.1 == k) with
+    | some (_, "ok", out) => .ok (bytesOf out)
+    | some (_, "big", _) => .big
+    | _ => .err
+
 structure DS where
-  g : Cfg
-  s : S
-  dead : Bool
+  mode : String := ""
+  g : Cfg := ⟨false, false, 0, 0, 32768, false⟩
+  s : S := {}
+  dead : Bool := false
+  all : List (List UInt8) := []      -- segments of the case, reversed
+  -- round trip
+  gc : Cfg := ⟨false, false, 0, 0, 32768, true⟩
+  c : S := {}
+  sv : S := {}
+
+def opType (s : String) : Nat :=
+  match s with
+  | "text" => 1 | "binary" => 2 | "close" => 8 | "ping" => 9 | "pong" => 10 | _ => s.toNat!
+
+/-- feed segments to a receiver until an error -/
+def feedSegs (g : Cfg) (e : Env) : S → List Bytes → List Act → S × List Act × Option Err
+  | s, [], acts => (s, acts, none)
+  | s, seg :: segs, acts =>
+    let r := parse g e s seg
+    match r.err with
+    | some er => (r.s, acts ++ r.acts, some er)
+    | none => feedSegs g e r.s segs (acts ++ r.acts)
+
+def cutUp : List UInt8 → List Nat → List (List UInt8)
+  | _, [] => []
+  | b, k :: ks => b.take k :: cutUp (b.drop k) ks
+
+def writesOf (acts : List Act) : List UInt8 :=
+  acts.foldr (fun a acc => match a with | .write b => b ++ acc | _ => acc) []
 
 partial def loop (h : IO.FS.Stream) (d : DS) : IO Unit := do
   let line ← h.getLine
   if line.isEmpty then return ()
-  match line.trimAscii.toString.splitOn " " with
-  | ["C", comp, lim, rl, mf] =>
-    let g : Cfg := { enableCompression := comp == "1", msgLimit := lim.toNat!, readLimit := rl.toNat!,
-                     maxFrame := mf.toNat!, isClient := false, maskKey := [] }
-    IO.println "ok"; loop h { g, s := {}, dead := false }
-  | ["D", hx] =>
+  let ws := (line.trimAscii.toString.splitOn " ").filter (· ≠ "")
+  let f (k : String) := (field ws k).getD ""
+  match ws with
+  | "C" :: "recv" :: _ =>
+    let comp := f "compress" == "1"
+    let g : Cfg := { enableCompression := comp, writeCompression := comp, msgLimit := (f "limit").toNat!,
+                     readLimit := (f "readlimit").toNat!, maxFrame := (f "maxframe").toNat!, isClient := f "role" == "client" }
+    IO.println "ok"; loop h { mode := "recv", g }
+  | "C" :: "rt" :: _ =>
+    let comp := f "compress" == "1"
+    let g : Cfg := { enableCompression := comp, writeCompression := comp, msgLimit := (f "limit").toNat!,
+                     readLimit := 0, maxFrame := (f "maxframe").toNat!, isClient := false }
+    IO.println "ok"; loop h { mode := "rt", g, gc := { g with isClient := true } }
+  | "C" :: "mask" :: _ => IO.println "ok"; loop h { mode := "mask" }
+  | "M" :: key :: sp :: _ =>
+    if d.mode != "mask" then IO.println "bad-op"; loop h d else
+    IO.println s!"R {short (maskFast (unhex key) (bytesOf sp))}"; loop h d
+  | "D" :: sp :: _ =>
+    if d.mode != "recv" then IO.println "bad-op"; loop h d else
+    let data := bytesOf sp
+    let d := { d with all := data :: d.all }
     if d.dead then IO.println "dead"; loop h d else
-    let r := parse d.g d.s (unhex hx)
-    let acts := String.intercalate ";" (r.acts.map showAct)
+    let r := parse d.g (mkEnv ws "keys" d.s.nwrites) d.s data
     match r.err with
-    | none => IO.println s!"R ok [{acts}]"; loop h { d with s := r.s }
-    | some e => IO.println s!"R err={e.code} [{acts}]"; loop h { d with s := r.s, dead := true }
+    | none => IO.println s!"R ok cache={r.s.cache.length} msglen={msgLen r.s} {showActs r.acts}"; loop h { d with s := r.s }
+    | some e =>
+      IO.println s!"R err={e.code} cache={r.s.cache.length} msglen={msgLen r.s} {showActs r.acts}"
+      loop h { d with s := r.s, dead := true }
+  | "X" :: op :: sp :: _ =>
+    if d.mode != "recv" then IO.println "bad-op"; loop h d else
+    let (s, r) := appWrite d.g (mkEnv ws "keys" d.s.nwrites) d.s op.toNat! (bytesOf sp)
+    match r with
+    | .ok wr => IO.println s!"X ok {showActs (wr.map Act.write)}"; loop h { d with s }
+    | .error e => IO.println s!"X err={e.code} []"; loop h { d with s }
+  | "E" :: _ =>
+    if d.mode != "recv" then IO.println "bad-op"; loop h d else
+    let bytes := d.all.foldl (fun acc seg => seg ++ acc) []
+    let fs := Rfc.decode (bytes.length + 1) bytes
+    let rg (strict : Bool) : Rfc.Cfg := { server := !d.g.isClient, compress := d.g.enableCompression, limit := d.g.msgLimit,
+                                          strict, infl := tinflFn (f "tinfl") }
+    let a := Rfc.run (rg true) {} 0 [] fs
+    let b := Rfc.run (rg false) {} 0 [] fs
+    IO.println s!"E rfc={showVerdict a.verdict}@{a.at_} len={showVerdict b.verdict}@{b.at_} exp=[{String.intercalate ";" (b.evs.map showEv)}]"
+    loop h d
+  | "W" :: side :: typ :: sp :: _ =>
+    if d.mode != "rt" then IO.println "bad-op"; loop h d else
+    let cli := side == "c"
+    let (gs, gr) := if cli then (d.gc, d.g) else (d.g, d.gc)
+    let (ss, sr) := if cli then (d.c, d.sv) else (d.sv, d.c)
+    let (ss1, w) := appWrite gs (mkEnv ws "keys" ss.nwrites) ss (opType typ) (bytesOf sp)
+    let (werr, wire) := match w with
+      | .ok wr => (0, wr.foldr (· ++ ·) [])
+      | .error e => (e.code, [])
+    let cuts := (splitNE (f "cuts") ",").map String.toNat!
+    let (sr1, racts, rerr) := feedSegs gr (mkEnv ws "bkeys" sr.nwrites) sr (cutUp wire cuts) []
+    let back := writesOf racts
+    let pb := if back.isEmpty then (⟨ss1, [], none⟩ : PR) else parse gs (mkEnv ws "rkeys" ss1.nwrites) ss1 back
+    IO.println s!"W werr={werr} wire={short wire} recv={showActs racts} rerr={errStr rerr} back={showActs pb.acts} berr={errStr pb.err}"
+    let ss2 := pb.s
+    let down := ss2.connClosed || sr1.connClosed || rerr.isSome || pb.err.isSome
+    let ss2 := { ss2 with connClosed := down }
+    let sr1 := { sr1 with connClosed := down }
+    if cli then loop h { d with c := ss2, sv := sr1 } else loop h { d with sv := ss2, c := sr1 }
   | _ => IO.println "bad-op"; loop h d
 
-def main : IO Unit := do
-  let g : Cfg := { enableCompression := false, msgLimit := 0, readLimit := 0, maxFrame := 32768, isClient := false, maskKey := [] }
-  loop (← IO.getStdin) { g, s := {}, dead := false }
+def main : IO Unit := do loop (← IO.getStdin) {}
